@@ -1401,8 +1401,52 @@ class Executor:
         raise Unsupported('select of %r' % (ty,))
 
     # ------------------------------------------------------------------ running
-    def start(self, fname, args, st=None):
-        st = st or State()
+    def run_global_ctors(self):
+        """execute the module's static initialisers (llvm.global_ctors) once; the resulting contents of
+        the globals become the initial memory of every exploration"""
+        self.init_globals = {}
+        g = self.m.globals.get('llvm.global_ctors')
+        if g is None or g.init is None or g.init[0] != 'agg':
+            return
+        fns = []
+        for ety, ev in g.init[1]:
+            if ev[0] == 'agg' and len(ev[1]) >= 2:
+                fv = ev[1][1][1]
+                if fv[0] == 'global':
+                    fns.append(fv[1])
+        st = State()
+        saved = (self.undefined_handler, self.opaque_calls, self.deadline)
+        self.undefined_handler = lambda ex, s_, name, args, I: (None if isinstance(ex.m.resolve(I['ty']), VoidT)
+                                                             else ex.fresh_of(s_, ex.m.resolve(I['ty']), 'init'))
+        try:
+            for f in fns:
+                if f not in self.m.functions:
+                    continue
+                s2 = self.start(f, [], st, _raw=True)
+                res = self.explore(s2)
+                if len(res) != 1 or res[0].outcome[0] != 'ret':
+                    raise Unsupported('static initialiser %s did not run to completion' % f)
+                st = res[0]
+                st.outcome = None
+                st.frames = []
+        finally:
+            self.undefined_handler, self.opaque_calls, self.deadline = saved
+        for rid, r in st.mem.items():
+            if r.kind == 'global':
+                self.init_globals[rid] = r
+        self.stats['paths'] = 0
+
+    init_globals = None
+
+    def start(self, fname, args, st=None, _raw=False):
+        if st is None:
+            st = State()
+        if not _raw:
+            if self.init_globals is None:
+                self.run_global_ctors()
+            for rid, r in self.init_globals.items():
+                if rid not in st.mem:
+                    st.mem[rid] = r.copy()
         fn = self.m.functions[fname]
         fr = Frame(fn)
         if len(args) != len(fn.params):
